@@ -97,6 +97,8 @@ mod imp {
         let p_keep: f64 = a.num("p-keep", 0.02);
         let max_mis: usize = a.num("max-mismatch", 200);
         let dedupe = a.flag("dedupe");
+        let p_unw: f64 = a.num("p-unwinding", 0.5);
+        let mut unwinding = 0usize;
         let mut seen: std::collections::HashSet<u64> = Default::default();
         let mut rng = StdRng::seed_from_u64(seed);
         let mut w = BufWriter::new(File::create(out).unwrap());
@@ -127,10 +129,16 @@ mod imp {
                 }
             }
             behaviours += 1;
-            let (mut mach, reset) = Machine::new(nt, &bad, rng.gen_range(0..1000), 16, 8, json!({"run": behaviours}));
+            // a share of the histories runs from a destructor while this thread is unwinding
+            // (std::thread::panicking() is true): the table must answer exactly the same
+            let unw = rng.gen_bool(p_unw);
+            unwinding += unw as usize;
+            let (evs, ok, first_bad, ncalls) = shredh::unwind::maybe_unwinding(unw, || {
+            let (mut mach, reset) = Machine::new(nt, &bad, rng.gen_range(0..1000), 16, 8, json!({"run": behaviours, "unw": unw}));
             let mut evs = vec![reset];
             let mut ok = true;
             let mut first_bad = Value::Null;
+            let mut calls = 0usize;
             for m in &hist {
                 let op = m["op"].as_str().unwrap();
                 let (t, d, g, h) = (u(&m["t"]) as usize, u(&m["d"]), u(&m["g"]), u(&m["h"]));
@@ -167,6 +175,10 @@ mod imp {
                     break;
                 }
             }
+            drop(mach);
+            (evs, ok, first_bad, calls)
+            });
+            calls += ncalls;
             if ok {
                 matched += 1;
                 if samples.len() < 3 {
@@ -191,7 +203,7 @@ mod imp {
         w.flush().unwrap();
         println!(
             "{}",
-            json!({"behaviours":behaviours,"calls":calls,"matched":matched,"mismatch":mismatch,
+            json!({"behaviours":behaviours,"in_unwinding_context":unwinding,"calls":calls,"matched":matched,"mismatch":mismatch,
                    "validated_sample":written,"events":events,"samples":samples,"mismatch_samples":mis_samples})
         );
     }
@@ -224,9 +236,14 @@ mod imp {
         let mut w = BufWriter::new(File::create(out).unwrap());
         let mut events = 0usize;
         let mut outcomes: std::collections::BTreeMap<String, usize> = Default::default();
+        let p_unw: f64 = a.num("p-unwinding", 0.5);
+        let mut unwinding = 0usize;
         let mut samples: Vec<Value> = Vec::new();
         for run in 0..count {
-            let (mut m, reset) = Machine::new(nt, &bad, rng.gen_range(0..1000), max_g, max_i, json!({"run": run + 1}));
+            let unw = rng.gen_bool(p_unw);
+            unwinding += unw as usize;
+            let evs = shredh::unwind::maybe_unwinding(unw, || {
+            let (mut m, reset) = Machine::new(nt, &bad, rng.gen_range(0..1000), max_g, max_i, json!({"run": run + 1, "unw": unw}));
             let mut evs = vec![reset];
             // different flavours of history: register-heavy, iteration-heavy, sparse worlds
             let p_reg = *[0.04, 0.10, 0.2].choose(&mut rng).unwrap();
@@ -318,6 +335,9 @@ mod imp {
                 *outcomes.entry(key).or_default() += 1;
                 evs.push(e);
             }
+            drop(m);
+            evs
+            });
             events += evs.len();
             if samples.len() < 2 {
                 samples.push(json!(evs.iter().take(25).map(|e| format!("{} {}", e["ev"].as_str().unwrap_or(""), e["out"].as_str().unwrap_or(""))).collect::<Vec<_>>()));
@@ -325,6 +345,6 @@ mod imp {
             write_events(&mut w, &evs);
         }
         w.flush().unwrap();
-        println!("{}", json!({"histories":count,"events":events,"outcomes":outcomes,"samples":samples}));
+        println!("{}", json!({"histories":count,"in_unwinding_context":unwinding,"events":events,"outcomes":outcomes,"samples":samples}));
     }
 }
